@@ -1204,11 +1204,21 @@ func runUnconfirmedNotClaimed(c *Ctx) {
 					// (round 15) the clearing is not made to depend on anything but the bounds of the copy
 					for _, anc := range pathTo(st.f.Body, as) {
 						if is, ok := anc.(*ast.IfStmt); ok {
-							boundsOnly := false
+							// accepted: tests that read nothing but the copy's bounds and the reservation list itself
+							// (`int(u/8) < len(copy)`, `len(s.unconfirmed) > 0`): no other field, no call besides len and conversions
+							boundsOnly := true
 							ast.Inspect(is.Cond, func(k ast.Node) bool {
-								if call, ok := k.(*ast.CallExpr); ok && len(call.Args) == 1 {
-									if id, ok := call.Fun.(*ast.Ident); ok && id.Name == "len" && ObjOf(finfo, call.Args[0]) == st.obj {
-										boundsOnly = true
+								switch v := k.(type) {
+								case *ast.SelectorExpr:
+									if v.Sel.Name != "unconfirmed" {
+										boundsOnly = false
+									}
+								case *ast.CallExpr:
+									if tv, ok := finfo.Types[v.Fun]; ok && tv.IsType() {
+										return true
+									}
+									if id, ok := v.Fun.(*ast.Ident); !ok || id.Name != "len" {
+										boundsOnly = false
 									}
 								}
 								return true
